@@ -154,7 +154,8 @@ class Check:
             "violations": len(new),
         }
         EVIDENCE.mkdir(exist_ok=True)
-        (EVIDENCE / f"{self.pid}.json").write_text(json.dumps(ev, indent=1, default=str))
+        if not os.environ.get("VERIF_NO_EVIDENCE"):
+            (EVIDENCE / f"{self.pid}.json").write_text(json.dumps(ev, indent=1, default=str))
         shutil.rmtree(self.wd, ignore_errors=True)
         print(f"{self.pid} {self.tier}: states={self.states} transitions={self.transitions} "
               f"replayed={self.replayed} traces_accepted={self.traces_accepted} "
